@@ -182,6 +182,17 @@ def run_impl(binary, cases=None, seed=1, n=100):
     return out, log
 
 
+def _tick_groups(ev):
+    g = []
+    for e in ev:
+        if e['e'] == 'tick':
+            yield g
+            g = []
+        else:
+            g.append(e)
+    yield g
+
+
 def conflicts(case):
     """number of reads that overlap an earlier-delivered write (the situations in
     which ordering matters)"""
@@ -302,6 +313,11 @@ def main(argv):
         'refused_deliveries': sum(1 for c in cases for e in c['events'] if e['e'] == 'd' and e.get('acc') is False),
         'crashed_cases': sum(1 for c in cases if any(e.get('crash') for e in c['events'])),
         'hostile_cases': sum(1 for c in cases if c.get('hostile')),
+        'requests_straddling_4k_unit': sum(1 for c in cases if not c.get('hostile') for e in c['events'] if e['e'] == 'd' and e.get('acc')
+                                           and e['msg']['addr'] % 4096 + max(e['msg']['size'], len(e['msg']['data'])) > 4096),
+        'protocol_respecting_aconv_cases': sum(1 for c in cases if not c.get('hostile') and c['cfg'].get('aconv')),
+        'max_deliveries_between_ticks': max((sum(1 for e in g if e['e'] == 'd' and e.get('acc'))
+                                             for c in cases for g in _tick_groups(c['events'])), default=0),
         'consecutive_tick_pairs': sum(1 for c in cases for a, b in zip(c['events'], c['events'][1:]) if a['e'] == 'tick' and b['e'] == 'tick'),
         'quiet_tick_followed_by_tick': sum(1 for c in cases for a, b in zip(c['events'], c['events'][1:])
                                            if a['e'] == 'tick' and b['e'] == 'tick' and a.get('progress') is False),
